@@ -382,6 +382,32 @@ def run(ctx, chk):
             if len(inc) >= 1:
                 chk.ok("C20.R3", "INT3-advance", "after the breakpoint prompt the index advances through the common increment")
     # ---------------- R4: truth table over I, T, R
+    def side_form(sd):
+        """('idx', a) for idx + a | ('len', b, line) for len(code) - b | None"""
+        oo = origin(defs, sd)
+        if (oo[0] == "multi" and oo[1] == idx) or (oo[0] == "place" and oo[1]["l"] == idx and not [e for e in oo[1]["p"] if e != "deref"]):
+            return ("idx", 0, None)
+        if oo[0] == "call" and (oo[1][1].get("def") or "").endswith("::len"):
+            return ("len", 0, None)
+        binrv = None
+        line = None
+        if oo[0] == "place":
+            d = defs.single(oo[1]["l"])
+            if d and d[0] == "assign" and d[2][2][0] == "bin":
+                binrv, line = d[2][2], d[2][3]
+        elif oo[0] == "rvalue" and oo[1][0] == "bin":
+            binrv = oo[1]
+        if binrv is not None and binrv[1] in ("AddO", "Add", "SubO", "Sub"):
+            c = const_of(binrv[3])
+            inner = side_form(binrv[2])
+            if c is not None and inner is not None:
+                sign = 1 if binrv[1].startswith("Add") else -1
+                if inner[0] == "idx":
+                    return ("idx", inner[1] + sign * c, line)
+                return ("len", inner[1] - sign * c, line if sign < 0 else inner[2])
+        return None
+
+
     def classify(b):
         """atom of the switch at block b: 'I', 'T', 'R' or None (+ detail)"""
         t = M.term(drv["blocks"][b])
@@ -395,17 +421,8 @@ def run(ctx, chk):
             if name.endswith("get_flag_state"):
                 return "T", o
         if o[0] == "rvalue" and o[1][0] == "bin" and o[1][1] in ("Le", "Lt", "Ne", "Ge", "Gt", "Eq"):
-            ls = operand_locals(o[1][2]) | operand_locals(o[1][3])
-            srcs = set()
-            for side in (o[1][2], o[1][3]):
-                oo = origin(defs, side)
-                if oo[0] == "multi" and oo[1] == idx:
-                    srcs.add("idx")
-                elif oo[0] == "place" and oo[1]["l"] == idx:
-                    srcs.add("idx")
-                elif oo[0] in ("rvalue", "place", "call"):
-                    srcs.add("other")
-            if "idx" in srcs:
+            fa, fb = side_form(o[1][2]), side_form(o[1][3])
+            if fa and fb and {fa[0], fb[0]} == {"idx", "len"}:
                 return "R", o
         return None, o
 
@@ -499,30 +516,18 @@ def run(ctx, chk):
                           f"{where}:{line_of(drv, cb)}")
     for b, o in atoms.get("R", []):
         rv = o[1]
-        # which side is idx; the other side must be len(code) - c
-        sides = [rv[2], rv[3]]
-        other = None
-        idx_left = None
-        for i, sd in enumerate(sides):
-            oo = origin(defs, sd)
-            if (oo[0] == "multi" and oo[1] == idx) or (oo[0] == "place" and oo[1]["l"] == idx):
-                idx_left = (i == 0)
-            else:
-                other = oo
+
+        fa, fb = side_form(rv[2]), side_form(rv[3])
         form = None
         under = None
-        if other is not None and other[0] == "place":
-            # (SubO(len, c)).0
-            d = defs.single(other[1]["l"])
-            if d and d[0] == "assign" and d[2][2][0] == "bin" and d[2][2][1] in ("SubO", "Sub"):
-                c = const_of(d[2][2][3])
-                lo = origin(defs, d[2][2][2])
-                if c is not None and lo[0] == "call" and (lo[1][1].get("def") or "").endswith("::len"):
-                    form = (rv[1] if idx_left else {"Le": "Ge", "Lt": "Gt", "Ge": "Le", "Gt": "Lt"}.get(rv[1], rv[1]), c)
-                    under = (c, d[2][3])
-        elif other is not None and other[0] == "rvalue" and other[1][0] == "bin" and other[1][1] in ("Sub", "SubO"):
-            c = const_of(other[1][3])
-            form = (rv[1] if idx_left else rv[1], c)
+        if fa and fb and {fa[0], fb[0]} == {"idx", "len"}:
+            idx_left = fa[0] == "idx"
+            fi, fl = (fa, fb) if idx_left else (fb, fa)
+            opn = rv[1] if idx_left else {"Le": "Ge", "Lt": "Gt", "Ge": "Le", "Gt": "Lt"}.get(rv[1], rv[1])
+            # idx + a OP len - b   <=>   idx OP len - (a + b)
+            form = (opn, fi[1] + fl[1])
+            if fl[1] > 0:
+                under = (fl[1], fl[2])
         if form in (("Le", 2), ("Lt", 1), ("Ne", 1)):
             chk.ok("C20.R4", f"atom:R@bb{b}", f"idx {form[0]} len-{form[1]}: excludes exactly the appended hlt")
         elif form is None:
@@ -540,6 +545,8 @@ def run(ctx, chk):
                               f"{where}:{line}", witness="program `start:` run with --interpreted")
             else:
                 chk.ok("C20.R4", f"bound-arith@bb{b}", f"len - {c} cannot underflow: len >= 1 after the appended hlt")
+        elif form is not None:
+            chk.ok("C20.R4", f"bound-arith@bb{b}", "nothing is subtracted from the length: no underflow")
     # not nested
     uic = [b for b in region if M.term(drv["blocks"][b])[0] == "call" and (M.term(drv["blocks"][b])[1].get("def") or "").endswith("user_interface")]
     for b in uic:
